@@ -47,7 +47,8 @@ def render_spec(E):
     if 'doc_route_on_type' in E:
         a.append('    "Returned by :route:`r3`."')
     a += ['    t1', '    t2 Int32', '']
-    b = ['namespace nsb', '', 'struct T1', '    z Int32', '', ('route r3(Void, List(T1)?, Void)' if 'io_wrapped' in E else 'route r3(T1, Void, Void)'), '']
+    b = ['namespace nsb', '', 'struct T1', '    z Int32'] + (['        "Like :field:`S7.x`."'] if 'doc_namesake' in E else []) + \
+        ['', 'struct S7', '    x Int32', '', ('route r3(Void, List(T1)?, Void)' if 'io_wrapped' in E else 'route r3(T1, Void, Void)'), '']
     return [('nsa.stone', '\n'.join(a) + '\n'), ('nsb.stone', '\n'.join(b) + '\n')]
 
 
@@ -115,7 +116,7 @@ class WhitelistJudge(Judge):
         except Exception as e:
             self.violation('exc_' + type(e).__name__, 'whitelisting raised %s: %s' % (type(e).__name__, e), ctx)
             return
-        got_types = sorted(d.name for ns in api.namespaces.values() for d in ns.data_types)
+        got_types = sorted(('T2' if (ns.name, d.name) == ('nsb', 'S7') else d.name) for ns in api.namespaces.values() for d in ns.data_types)
         got_routes = sorted(('q1' if (ns.name, r.name) == ('nsb', 'r3') else r.name) for ns in api.namespaces.values() for r in ns.routes)
         exp_types, exp_routes = sorted(seq(obj['ret_types'])), sorted(seq(obj['ret_routes']))
         if self.judged % 1499 == 1:
